@@ -295,7 +295,7 @@ def check_file(data, layout, obs, rng, pads, sizes, real_file=False):
         obs.distinct_by_construction(n)
 
 
-def boundary_files():
+def boundary_files(huge=()):
     """Files whose later headers straddle the internal buffer boundaries of
     buffered streams (4096 / 8192 / 16384) and files with one header longer
     than 8 KiB / 64 KiB."""
@@ -316,7 +316,7 @@ def boundary_files():
                 {'encoding': None,
                  'meta': {'obj': {'path': 'c'}, 'encoding': None}}]}]}
             out.append(serialize(doc))
-    for hl in (8000, 8190, 8200, 9000, 20000, 70000):
+    for hl in (8000, 8190, 8200, 9000, 20000, 70000) + tuple(huge):
         def extra(index, sid, pairs, hl=hl):
             if index == 2:
                 return pairs + [('x-long', 'w' * hl)]
@@ -387,9 +387,16 @@ def check_boundary_file(data, layout, obs, sizes):
 def run(ctx):
     obs = ctx.obs
     rng = ctx.rng
-    for i, (data, layout) in enumerate(boundary_files()):
+    M = 1 << 20
+    huge = (M + 70001,) if ctx.quick else (M - 1, M + 1, M + 70001, 2 * M + 5,
+                                           5 * M + 3)
+    for i, (data, layout) in enumerate(boundary_files(huge)):
         if ctx.mine(i):
+            big = len(data) > 500000
+            if big:
+                obs.count('headers_longer_than_1MiB')
             check_boundary_file(data, layout, obs,
+                                (64, 96, 4096, 10 ** 6, 10 ** 7) if big else
                                 (1, 7, 64, 96, 100, 4096, 8192, 10 ** 6))
     nfiles = ctx.share(ctx.pick(64, 3000))
     pads = list(range(0, 2 * BLOCK + 1))
